@@ -294,6 +294,51 @@ def main():
                                    "what": "; ".join(problems[:3]), "z0": z0.tolist(), "v": v.tolist(),
                                    "site": {"primitive": c.prim, "kind": "second-order", "configuration": c.tag}})
                 dist(sname + ":WRONG")
+    # ---- library wrappers that re-enter differentiation inside a rule (checkpoint, misc.fixed_point): their derivatives
+    #      can be differentiated again ----
+    from autograd import checkpoint, hessian as _hess, make_hvp as _mhvp, jacobian as _jac
+    from autograd.misc.fixed_points import fixed_point
+    zs = onp.array([0.7, -0.4, 1.2])
+    base_fs = {"cubic": lambda z: anp.sum(z * z * z) + anp.sum(z) ** 2, "sin-dot": lambda z: anp.sum(anp.sin(z) * z[::-1]),
+               "tanh-norm": lambda z: anp.tanh(anp.sum(z * z))}
+    for fname, fb in base_fs.items():
+        out["n"] += 1
+        out["keys"].append("checkpoint-second-order|" + fname)
+        dist("checkpoint:second-order")
+        try:
+            cf = checkpoint(fb)
+            Ht = onp.asarray(_hess(fb)(zs))
+            got2 = {"hessian": onp.asarray(_hess(cf)(zs)), "grad of grad": onp.array([onp.asarray(grad(lambda z, i=i: grad(cf)(z)[i])(zs)) for i in range(3)]),
+                    "make_hvp": onp.asarray(_mhvp(cf)(zs)[0](onp.ones(3))), "composed": onp.asarray(_hess(lambda z: cf(z * 2.0) * 0.25)(zs))}
+            want2 = {"hessian": Ht, "grad of grad": Ht, "make_hvp": Ht @ onp.ones(3), "composed": onp.asarray(_hess(lambda z: fb(z * 2.0) * 0.25)(zs))}
+            for qn in got2:
+                if got2[qn].dtype == object or not onp.allclose(got2[qn], want2[qn], atol=1e-10):
+                    out["bad"].append({"primitive": "checkpoint", "configuration": fname, "sequence": qn,
+                                       "what": "second derivative through checkpoint (%s): got %s, the unwrapped function gives %s" % (qn, got2[qn].tolist(), want2[qn].tolist()),
+                                       "site": {"primitive": "checkpoint", "kind": "second-order", "configuration": fname}})
+                    break
+        except Exception as ex:
+            out["bad"].append({"primitive": "checkpoint", "configuration": fname, "what": "second derivative through checkpoint raised %r" % (ex,),
+                               "site": {"primitive": "checkpoint", "kind": "second-order", "configuration": fname}})
+    out["n"] += 1
+    out["keys"].append("fixed_point-second-order")
+    dist("fixed_point:second-order")
+    try:
+        def FP(a_):
+            f_ = lambda a__: lambda x_: 0.5 * anp.cos(a__ * x_) + 0.1 * a__     # noqa: E731
+            dist_ = lambda x_, y_: anp.max(anp.abs(x_ - y_))                     # noqa: E731
+            return anp.sum(fixed_point(f_, a_, anp.zeros(2) + 0.3, dist_, 1e-13) ** 2)
+        a0 = onp.array([0.7, 1.3])
+        g1 = grad(FP)
+        e5 = 1e-5
+        Hn = onp.stack([(onp.asarray(g1(a0 + e5 * e_)) - onp.asarray(g1(a0 - e5 * e_))) / (2 * e5) for e_ in onp.eye(2)], 1)
+        Hj = _jac(g1)(a0)
+        if getattr(Hj, "dtype", None) == object or not onp.allclose(onp.asarray(Hj, float), Hn, atol=1e-5):
+            out["bad"].append({"primitive": "misc.fixed_point", "configuration": "cos contraction", "what": "second derivative through fixed_point: %r, finite differences of the gradient give %s" % (Hj, Hn.tolist()),
+                               "site": {"primitive": "misc.fixed_point", "kind": "second-order", "configuration": "cos contraction"}})
+    except Exception as ex:
+        out["bad"].append({"primitive": "misc.fixed_point", "configuration": "cos contraction", "what": "second derivative through fixed_point raised %r" % (ex,),
+                           "site": {"primitive": "misc.fixed_point", "kind": "second-order", "configuration": "cos contraction"}})
     out["keys"] = sorted(set(out["keys"]))
     print(json.dumps(out, default=str))
 
